@@ -835,7 +835,7 @@ class _G:
     used.update(a["p"] for a in n["attrs"])
     for _ in range(self.d(st.integers(*prof["nested"]))):
       # nested style children never repeat a property among siblings (DESIGN C04 soundness note); they may repeat an inline one
-      at = self.attrs((1, 2), REGION_PROPS + ["Color", "FontSize", "LineHeight"], exclude=[a["p"] for ns_ in n["nested"] for a in ns_])
+      at = self.attrs((1, 2), REGION_PROPS + ["Color", "FontSize", "LineHeight", "TextEmphasis", "FontStyle", "TextOutline"], exclude=[a["p"] for ns_ in n["nested"] for a in ns_])
       if at:
         n["nested"].append(at)
     n["refs"] = self.refs(prof["elem_refs"])
